@@ -105,8 +105,8 @@ func init() {
 			GenQuick: famGraph(3, 1, 4), GenThorough: famGraph(3, 2, 6), SampleQuick: 300, Probes: probeEdges,
 			// chains (sequence A B C, also with repeated ids) over tasks and over childless epics
 			GenMore: []SeqModel{
-				with(famGraph(3, 0, 4), func(m *SeqModel) { m.Name = "chains-tasks"; m.Extras = []string{"chains"}; m.StateArgs = nil; m.CmdNames = []string{"new_task", "sequence", "sequence_rm"} }),
-				with(famGraph(0, 3, 4), func(m *SeqModel) { m.Name = "chains-epics"; m.Extras = []string{"chains"}; m.StateArgs = nil; m.CmdNames = []string{"new_epic", "sequence", "sequence_rm"} }),
+				with(famGraph(3, 0, 5), func(m *SeqModel) { m.Name = "chains-tasks"; m.Extras = []string{"chains"}; m.StateArgs = nil; m.CmdNames = []string{"new_task", "sequence", "sequence_rm"} }),
+				with(famGraph(0, 3, 5), func(m *SeqModel) { m.Name = "chains-epics"; m.Extras = []string{"chains"}; m.StateArgs = nil; m.CmdNames = []string{"new_epic", "sequence", "sequence_rm"} }),
 			},
 			CraftQuick: famCraft(600, "prune", "compact"), CraftThorough: famCraft(20000, "prune", "compact"),
 			Sim: with(famGraph(4, 2, 14), func(m *SeqModel) { m.Extras = append(m.Extras, "chains", "badid") }), SimNumQuick: 60, SimNumThorough: 2000}
